@@ -1,12 +1,229 @@
-"""C07: structural clauses (see DESIGN.md section 4)."""
+"""C07 sequence scores, random walks, greedy CTC: forwarding (G5/G1/G2), sibling kernel
+agreement (G13), neutral elements (G13), single-source parameters of the distribution (G13)."""
 from __future__ import annotations
 
+import ast
+import re
+
 from rules import fwd as R_fwd
+from sa.astutil import call_name, guards_of, is_neg_inf, parent_map, u
+from sa.defuse import ReachingDefs
+from sa.model import AnalysisError, own_calls, own_nodes
+from sa.resolve import bind_args
 from .common import Ctx, plumbing
+
+MOD = "_decoding"
+
+
+def _kernel_fingerprint(f):
+    """Order of the masking steps of a sequence-log-prob kernel, with locals abstracted by role."""
+    rd = ReachingDefs(f.node)
+    steps = []
+    mask_names = set()
+    for n in sorted([x for x in own_nodes(f.node) if isinstance(x, ast.Assign)], key=lambda x: x.lineno):
+        v = n.value
+        s = u(v)
+        t = u(n.targets[0])
+        if re.fullmatch(r"hyp\.lt\(0\) \| hyp\.ge\((\w+)\)", s):
+            steps.append("oov-mask=(hyp<0)|(hyp>=num_classes)")
+            mask_names.add(t)
+        elif isinstance(v, ast.Call) and call_name(v).endswith("log_softmax") and "-1" in s:
+            steps.append("log_softmax(-1)")
+        elif t == "hyp" and isinstance(v, ast.Call) and isinstance(v.func, ast.Attribute) and v.func.attr == "masked_fill" \
+                and u(v.args[0]) in mask_names and u(v.args[1]) == "0":
+            steps.append("index:=0 under mask")
+        elif isinstance(v, ast.Call) and ".gather(" in s and "hyp.unsqueeze(" in s:
+            steps.append("gather(hyp)")
+        elif isinstance(v, ast.Call) and isinstance(v.func, ast.Attribute) and v.func.attr == "masked_fill" \
+                and u(v.args[0]) in mask_names and t != "hyp":
+            steps.append(f"fill({u(v.args[1])})")
+        elif isinstance(v, ast.BinOp) and isinstance(v.op, ast.BitOr) and t in mask_names:
+            steps.append("mask|=len-mask")
+    red = [c.func.attr for c in own_calls(f.node) if isinstance(c.func, ast.Attribute) and c.func.attr in ("sum", "prod", "mean")
+           and not (isinstance(c.func.value, ast.Call) and "to(" in u(c.func.value))]
+    return steps, red
 
 
 def run(ctx: Ctx):
-    plumbing(ctx, 'S1')
-    R_fwd.g5_module_pairs(ctx.pkg, ctx.res, ctx.col, only=['ctc_greedy_search', 'fill_after_eos', 'sequence_log_probs'], clause='S1')
-    ctx.col.floor('g5_pairs', ctx.col.counts.get('g5_pairs', 0), 3)
-    return dict(explanation='plumbing clauses only (work in progress)', decided=['S1'], not_decided=[])
+    col, pkg, res = ctx.col, ctx.pkg, ctx.res
+    rel = pkg.module(MOD).relname
+
+    # ---- S1 forwarding ---------------------------------------------------------------------------------
+    R_fwd.g5_module_pairs(pkg, res, col, only={"sequence_log_probs", "ctc_greedy_search", "fill_after_eos"}, clause="S1")
+    col.floor("g5_pairs", col.counts.get("g5_pairs", 0), 4)
+    kt = pkg.func(f"{MOD}::_sequence_log_probs_tensor")
+    kp = pkg.func(f"{MOD}::_sequence_log_probs_ps")
+    n_disp = 0
+    for f in pkg.funcs(f"{MOD}::sequence_log_probs"):
+        for c in own_calls(f.node):
+            if call_name(c) == kt.name:
+                got = {p.name: u(a) for p, a, _ in bind_args(c, kt, False).pairs}
+                n_disp += 1
+                col.ob("G1", "S1", f"{rel}::sequence_log_probs@{f.line}::tensor-kernel-binding",
+                       got == {"logits": "logits", "hyp": "hyp", "dim": "dim", "eos": "eos"}, f"tensor kernel called with {got}", rel, c.lineno, sample=got)
+            if call_name(c) == kp.name:
+                got = {p.name: u(a) for p, a, _ in bind_args(c, kp, False).pairs}
+                n_disp += 1
+                col.ob("G1", "S1", f"{rel}::sequence_log_probs@{f.line}::packed-kernel-binding",
+                       got == {"logits": "logits", "hyp": "hyp", "dim": "dim"}, f"packed kernel called with {got} (eos is "
+                       f"documented as ignored for packed input)", rel, c.lineno, sample=got)
+    col.floor("sequence_log_probs_dispatch_sites", n_disp, 4)
+    rw = pkg.func(f"{MOD}::RandomWalk.forward")
+    rwa = pkg.func(f"{MOD}::random_walk_advance")
+    rdw = ReachingDefs(rw.node)
+    calls = [n for n in own_nodes(rw.node) if isinstance(n, ast.Assign) and isinstance(n.value, ast.Call) and call_name(n.value) == rwa.name]
+    if len(calls) != 1:
+        raise AnalysisError("C07: RandomWalk.forward does not call random_walk_advance exactly once")
+    asg = calls[0]
+    got = {p.name: a for p, a, _ in bind_args(asg.value, rwa, False).pairs}
+    tg = [u(t) for t in asg.targets[0].elts] if isinstance(asg.targets[0], ast.Tuple) else []
+    # roles: the walk's (paths, scores) are what the function returns in slots 0 and 2
+    ret = [st for st, _ in rdw.return_envs][-1]
+    rnames = [u(x) for x in ret.value.elts] if isinstance(ret.value, ast.Tuple) else []
+    ok = len(rnames) == 3 and tg == [rnames[0], rnames[2]] and u(got.get("y_prev")) == rnames[0] \
+        and u(got.get("log_probs_prev")) == rnames[2] and u(got.get("y_prev_lens")) == rnames[1]
+    col.ob("G2", "S1", f"{rel}::RandomWalk.forward::random_walk_advance-slots", ok,
+           f"random_walk_advance({', '.join(k + '=' + u(v) for k, v in got.items())}) -> {tg}; the returned triple is "
+           f"{rnames}: paths/scores/lengths must be fed and received in their own slots", rel, asg.lineno,
+           sample=dict(args={k: u(v) for k, v in got.items()}, targets=tg, returned=rnames))
+    # finished walks are forced to eos exactly like in the beam search; the length counts the first eos
+    pm = parent_map(rw.node)
+    fills = [c for c in own_calls(rw.node) if isinstance(c.func, ast.Attribute) and c.func.attr == "masked_fill" and len(c.args) == 2]
+    vals = sorted("-inf" if is_neg_inf(c.args[1]) else u(c.args[1]) for c in fills)
+    col.ob("G13", "S1", f"{rel}::RandomWalk.forward::finished-walks-forced-to-eos", vals == ["-inf", "0.0"],
+           f"finished walks' step scores are filled with {vals}; expected -inf everywhere then 0.0 at eos", rel, rw.line, sample=vals)
+    incs = [n for n in own_nodes(rw.node) if isinstance(n, ast.AugAssign) and isinstance(n.op, ast.Add) and len(rnames) == 3 and u(n.target) == rnames[1]]
+    vals2 = sorted(u(n.value) for n in incs)
+    okinc = len(incs) == 2 and vals2[0] == "1" and vals2[1].startswith("~")
+    col.ob("G16", "S1", f"{rel}::RandomWalk.forward::length-counts-up-to-first-eos", okinc,
+           f"lengths are advanced by {vals2}; expected += 1 without eos and += ~(finished before this step) with eos (the "
+           f"first eos is counted, later ones are not)", rel, rw.line, sample=vals2)
+
+    # ---- S2 padded and packed kernels agree -----------------------------------------------------------------
+    ft, rt = _kernel_fingerprint(kt)
+    fp, rp = _kernel_fingerprint(kp)
+    core = lambda st: [x for x in st if x != "mask|=len-mask"]
+    col.ob("G13", "S2", f"{rel}::sequence_log_probs::kernels-agree", core(ft) == core(fp) and rt == rp and
+           core(ft) == ["log_softmax(-1)", "oov-mask=(hyp<0)|(hyp>=num_classes)", "index:=0 under mask", "gather(hyp)", "fill(0.0)"]
+           and rt == ["sum"],
+           f"padded kernel: {ft} reduce {rt}; packed kernel: {fp} reduce {rp}; both must log-softmax the scores, mask "
+           f"out-of-vocabulary positions by the same two comparisons, zero the index before the gather, fill with the "
+           f"neutral element 0.0 and sum", rel, kt.line, sample=dict(padded=ft, packed=fp))
+    # eos handling of the padded kernel: length to the first eos, plus one (eos included)
+    lens = [n for n in own_nodes(kt.node) if isinstance(n, ast.Assign) and isinstance(n.value, ast.BinOp) and "_lens_from_eos" in u(n.value)]
+    okl = len(lens) == 1 and u(lens[0].value) == "_lens_from_eos(hyp, eos, dim) + 1"
+    lm = [n for n in own_nodes(kt.node) if isinstance(n, ast.Assign) and isinstance(n.value, ast.Compare) and isinstance(n.value.ops[0], (ast.GtE, ast.Gt))]
+    okm = len(lm) == 1 and isinstance(lm[0].value.ops[0], ast.GtE) and lens and u(lm[0].value.comparators[0]) == u(lens[0].targets[0])
+    col.ob("G12", "S2", f"{rel}::_sequence_log_probs_tensor::up-to-and-including-first-eos", okl and okm,
+           f"positions are dropped under `{u(lm[0].value) if lm else None}` with length `{u(lens[0].value) if lens else None}`; "
+           f"expected position >= (first eos index + 1)", rel, kt.line)
+
+    # ---- S3 greedy CTC neutral elements --------------------------------------------------------------------------
+    g = pkg.func(f"{MOD}::ctc_greedy_search")
+    pmg = parent_map(g.node)
+    table = {}
+    for n in own_nodes(g.node):
+        if isinstance(n, ast.Assign) and isinstance(n.value, ast.Call) and isinstance(n.value.func, ast.Attribute):
+            gs = guards_of(pmg, n)
+            pol = [p for t, p in gs if u(t) == "is_probs"]
+            if not pol:
+                continue
+            m = n.value.func.attr
+            if m == "masked_fill":
+                table.setdefault(pol[-1], {})["fill"] = u(n.value.args[1])
+            elif m in ("prod", "sum"):
+                table.setdefault(pol[-1], {})["reduce"] = m
+    col.ob("G13", "S3", f"{rel}::ctc_greedy_search::neutral-elements", table == {True: {"fill": "1.0", "reduce": "prod"}, False: {"fill": "0.0", "reduce": "sum"}},
+           f"frames beyond the valid length are filled / reduced as {table}; probabilities need (1.0, prod), log-"
+           f"probabilities (0.0, sum)", rel, g.line, sample={str(k): v for k, v in table.items()})
+    norm = [n for n in own_nodes(g.node) if isinstance(n, ast.Assign) and "log_softmax" in u(n.value)]
+    col.ob("G13", "S3", f"{rel}::ctc_greedy_search::normalise-iff-not-probs", len(norm) == 1 and any(
+        (u(t) == "not is_probs" and p) or (u(t) == "is_probs" and not p) for t, p in guards_of(pmg, norm[0])),
+        "scores are not log-softmax-normalised exactly when they are not already probabilities", rel, g.line)
+    # repeats and blanks: keep = (label != blank) & (label != previous label), first frame kept iff non-blank
+    txt = " ".join(u(n) for n in own_nodes(g.node) if isinstance(n, ast.Assign))
+    okk = "!= blank_idx" in txt and re.search(r"(\w+)\[:, 1:\] != \1\[:, :-1\]", txt) is not None
+    col.ob("G12", "S3", f"{rel}::ctc_greedy_search::drop-blanks-and-repeats", okk,
+           "the keep mask is not (label != blank) & (label != previous label)", rel, g.line)
+
+    # ---- S4 the distribution wrapper uses one source for eos / max_iters / vocabulary ------------------------------
+    dist = pkg.cls(f"{MOD}::SequentialLanguageModelDistribution")
+    uses = {"eos": set(), "max_iters": set(), "vocab_size": set()}
+    for fl in dist.methods.values():
+        for m in fl:
+            if m.name == "__init__":
+                continue
+            for n in own_nodes(m.node):
+                if isinstance(n, ast.Attribute) and isinstance(n.ctx, ast.Load) and n.attr in uses:
+                    uses[n.attr].add(u(n))
+    want = {"eos": {"self.random_walk.eos"}, "max_iters": {"self.max_iters"}, "vocab_size": {"self.random_walk.lm.vocab_size"}}
+    col.ob("G13", "S4", f"{rel}::SequentialLanguageModelDistribution::single-source-parameters", uses == want,
+           f"the wrapper reads {({k: sorted(v) for k, v in uses.items()})}; support, sampling, enumeration and log_prob "
+           f"must agree on one eos / step limit / vocabulary", rel, dist.node.lineno, sample={k: sorted(v) for k, v in uses.items()})
+    lp = pkg.func(f"{MOD}::SequentialLanguageModelDistribution.log_prob")
+    slp = [c for c in own_calls(lp.node) if call_name(c) == "SequenceLogProbabilities"]
+    col.ob("G13", "S4", f"{rel}::SequentialLanguageModelDistribution.log_prob::scores-with-the-walk's-eos",
+           len(slp) == 1 and [u(a) for a in slp[0].args] == ["1", "self.random_walk.eos"],
+           f"log_prob scores sequences with {[u(c) for c in slp]}; expected SequenceLogProbabilities(1, self.random_walk.eos)", rel, lp.line)
+    sm = pkg.func(f"{MOD}::SequentialLanguageModelDistribution.sample")
+    pads = [c for c in own_calls(sm.node) if call_name(c).endswith("pad_sequence")]
+    col.ob("G13", "S4", f"{rel}::SequentialLanguageModelDistribution.sample::pads-with-eos",
+           len(pads) == 1 and any(k.arg == "padding_value" and u(k.value) == "self.random_walk.eos" for k in pads[0].keywords),
+           "ragged samples are not padded with the walk's eos (padded samples would leave the support)", rel, sm.line)
+    walks = [c for c in own_calls(sm.node) if u(c.func) == "self.random_walk"]
+    okw = len(walks) == 2 and all(u(c.args[0]) == "self.initial_state.copy()" and u(c.args[2]) == "self.max_iters" for c in walks)
+    col.ob("G1", "S4", f"{rel}::SequentialLanguageModelDistribution.sample::walk(initial_state.copy(), n, max_iters)", okw,
+           f"the walk is run as {[u(c) for c in walks]}", rel, sm.line)
+    plumbing(ctx, "S1")
+    return dict(
+        explanation=(
+            "Decides for C07: (S1) Module->functional forwarding for sequence scores / greedy CTC / fill-after-eos, kernel "
+            "bindings in both version-conditional definitions, the random walk's (paths, lengths, scores) slots through "
+            "random_walk_advance, eos forcing (-inf then 0.0 at eos) and the length rule (first eos counted); (S2) the "
+            "padded and packed kernels apply the same masking steps in the same order with the neutral element of their "
+            "reduction, and the padded kernel keeps positions up to and including the first eos; (S3) greedy CTC uses "
+            "(1.0, prod) for probabilities and (0.0, sum) for log-probabilities, normalises iff needed, drops blanks and "
+            "repeats; (S4) the distribution wrapper reads eos / step limit / vocabulary from one source and scores, pads "
+            "and walks with them. NOT decided: the numeric agreement itself, support normalisation, removal results."),
+        decided=["S1", "S2", "S3", "S4"],
+        not_decided=["three code paths agree numerically", "probabilities over the support sum to one", "decoding results"],
+        assumptions=["documented exception: eos is ignored for packed input"],
+    )
+
+
+def _mutants():
+    from selftest.mutate import Mutant as M
+    D = "_decoding.py"
+    return [
+        M("packed-fill-1", D, "logits = logits.masked_fill(mask, 0.0)\n    logits = torch.nn.utils.rnn.pad_packed_sequence", "logits = logits.masked_fill(mask, 1.0)\n    logits = torch.nn.utils.rnn.pad_packed_sequence", "kernels-agree"),
+        M("padded-oov-one-sided", D, "mask = hyp.lt(0) | hyp.ge(num_classes)\n    if eos is not None:", "mask = hyp.ge(num_classes)\n    if eos is not None:", "kernels-agree"),
+        M("eos-excluded", D, "hyp_lens = _lens_from_eos(hyp, eos, dim) + 1", "hyp_lens = _lens_from_eos(hyp, eos, dim)", "first-eos"),
+        M("eos-mask-strict", D, "len_mask = len_mask >= hyp_lens", "len_mask = len_mask > hyp_lens", "first-eos"),
+        M("greedy-fill-swapped", D, "max_ = max_.masked_fill(~in_len_mask, 1.0)", "max_ = max_.masked_fill(~in_len_mask, 0.0)", "neutral-elements"),
+        M("greedy-prod-sum-swapped", D, "if is_probs:\n        max_ = max_.prod(1)\n    else:\n        max_ = max_.sum(1)", "if is_probs:\n        max_ = max_.sum(1)\n    else:\n        max_ = max_.prod(1)", "neutral-elements"),
+        M("module-drops-eos", D, "return sequence_log_probs(logits, hyp, self.dim, self.eos)", "return sequence_log_probs(logits, hyp, self.dim)", "G5/S1"),
+        M("walk-slots-swapped", D, "y, log_probs = random_walk_advance(log_probs_t, log_probs, y, y_lens)", "log_probs, y = random_walk_advance(log_probs_t, log_probs, y, y_lens)", "G2"),
+        M("walk-len-always", D, "y_lens += ~eos_mask", "y_lens += 1\n                eos_mask = eos_mask", "length-counts"),
+        M("dist-other-eos", D, "sequence_log_probs = SequenceLogProbabilities(1, self.random_walk.eos)", "sequence_log_probs = SequenceLogProbabilities(1, None)", "scores-with-the-walk's-eos"),
+        M("dist-pad-zero", D, "samples = torch.nn.utils.rnn.pad_sequence(samples, padding_value=self.random_walk.eos)", "samples = torch.nn.utils.rnn.pad_sequence(samples, padding_value=0)", "pads-with-eos"),
+        M("greedy-module-blank-default", D, "return ctc_greedy_search(logits, in_lens, self.blank_idx, self.batch_first, self.is_probs)", "return ctc_greedy_search(logits, in_lens, self.blank_idx, self.batch_first)", "G5/S1"),
+        M("twin:rename-keep", D, "keep_mask_", "km2", "", -1, twin=True),
+    ]
+
+
+def selftest(ctx: Ctx):
+    from selftest.mutate import run_selftest
+    return run_selftest("C07", ctx.pkg.repo, _mutants(), floor=10)
+
+
+MANIFEST = dict(
+    level_text=(
+        "Static analysis (no execution): forwarding completeness and slot roles, sibling agreement of the padded and "
+        "packed sequence-score kernels (same masking steps, same neutral element for the same reduction), the neutral-"
+        "element table of greedy CTC decoding, and single-source parameters of the distribution wrapper. Necessary "
+        "conditions of 'identically for padded and packed input', 'up to and including the first end-of-sequence' and of "
+        "the three code paths agreeing; the numeric agreement itself is not decided."),
+    level_note="Trusted: python ast; documented exception that eos is ignored for packed input.",
+    technique="static analysis: sibling-implementation agreement (step fingerprints), neutral-element tables, argument/slot binding, single-source attribute use",
+    design_ref="DESIGN.md section 4 C07",
+)
